@@ -169,6 +169,8 @@ SWEEP_PART_OPS = (
     + [[["addarg", k, s_]] for k in (0, 1) for s_ in ("pos", "kw", "star", "comma")]
     + [[["quote", k, s_]] for k in (0, 1, 2) for s_ in ("flip", "inject", "flipinject", "mix")]
     + [[["nest", k]] for k in (0, 1, 2)]
+    + [[["nonascii", k]] for k in (0, 1, 2)]
+    + [[["breakattr", k]] for k in (0, 1, 2)]
     + [[["sameline", k]] for k in (0, 1, 2)]
     + [[["tuplerhs", k, s_]] for k in (0, 1) for s_ in ("tuple", "lambda")]
 )
